@@ -8,6 +8,7 @@ import copy
 import itertools
 import json
 import random
+import re
 
 import translate
 from harness.chanscen import Scenario, model_request, real_reply, run_real
@@ -237,6 +238,7 @@ def run(tier, seed):
             if observables(b, br) != observables(v, vr):
                 ck.violation({"base": b.describe(), "variant": v.describe(), "known": "F10", "tag": "f10"}, "generic prompt prefix matched early", matcher)
     timed_family(ck, tier, seed, modelq)
+    timed_model_family(ck, tier, seed, modelq)
     auth_family(ck, tier, seed)
     ansi_differential(ck, tier)
     try:
@@ -244,6 +246,8 @@ def run(tier, seed):
     except Exception as e:
         ck.proof_broken("model driver Drv/C01.lean", repr(e))
         outs = []
+    ck.extra["model_replays_with_timed_op"] = sum(1 for q in modelq if "sar:" in q[0])
+    ck.extra["model_replays_with_pauses_in_timed_op"] = sum(1 for q in modelq if re.search(r"sar:[^;]*:[01]*1[01]*(;|$)", q[0]))
     for (req, want, desc), out in zip(modelq, outs):
         if "stall" in want or "stall" in out or "exc:" in want:
             out, want = out.split(" W=")[0], want.split(" W=")[0]
@@ -357,6 +361,66 @@ def timed_family(ck, tier, seed, modelq):
             ck.case(("timed", bi, tag, str(v.pauses), str(v.cuts[:30])), nontrivial=fired > 0,
                     tags=("timed", tag.split("@")[0], "pause-inside-sequence" if any(k in inside for k in v.pauses) else "pause-in-text", base.platform, base.stack))
             compare(ck, ref, rres, "timed-" + tag, v, vres, modelq)
+
+
+def timed_model_family(ck, tier, seed, modelq):
+    """model-vs-code only (no oracle): `send_and_read` as the LAST operation with every kind of expected output -- none at all (the
+    compiled pattern is then the empty one and the loop ends with its first iteration: `timed_no_outputs_first_read`), one that
+    occurs in the response (the loop ends at the first read boundary behind it), one that never occurs, several -- under random
+    segmentations and quiet intervals.  What the call returns then legitimately depends on the segmentation; the Lean
+    `sendInputAndRead` must return the same raw/processed result and leave the same bytes unread and held back."""
+    n = 0
+    for bi in range(10 if tier == "quick" else 120):
+        rng = random.Random(f"{seed}-timedmodel-{bi}")
+        base = gen_base(rng, tier)
+        cmds = [c for c in base.outputs if base.outputs[c]]
+        if not cmds or base.echo_junk or base.rough:
+            continue
+        c1 = rng.choice(cmds)
+        out = base.outputs[c1]
+        words = [w for w in re.findall(r"[A-Za-z0-9]{2,}", out)]
+        seen = rng.choice(words) if words else None
+        kinds = [[], ["NEVER-SEEN-TEXT"], ["NEVER-SEEN-TEXT", "other never"]]
+        if seen:
+            kinds += [[seen], [seen.swapcase()], ["NEVER-SEEN-TEXT", seen]]
+        # a literal piece of the output with whatever characters it has: as a regex (`_join_and_compile`) it may mean something else
+        # than as a literal (`channel_output in search_buf`) -- both tests are in the loop and in the model
+        metas = [m.start() for m in re.finditer(r"[.+*?|$^]", out)]
+        if metas:
+            i = max(0, rng.choice(metas) - rng.randint(0, 3))
+            piece = out[i:i + rng.randint(2, 8)].split("\n")[0]
+            try:
+                re.compile(("(" + piece + ")").encode())
+                if piece.strip():
+                    kinds += [[piece], [piece]]
+                    seen = seen or piece
+            except re.error:
+                pass
+        outs = kinds[bi % len(kinds)]
+        base.ops = [("send_command", rng.choice(cmds), True, False), ("send_and_read", c1, outs, rng.random() < 0.5)]
+        base.questions, base.commandeer, base.banner = {}, False, b""
+        kind = [None, "ansi", "ansi+cr"][bi % 3]
+        base.decor = {"kind": kind, "seed": rng.randrange(10**6), "p": rng.choice([0.15, 0.3])} if kind else None
+        for vi in range(3 if tier == "quick" else 6):
+            v = copy.deepcopy(base)
+            v.cuts = [rng.choice([1, 2, 3, 5, 8, 13, 40]) for _ in range(20000)] if vi else []
+            vres0 = run_real(copy.deepcopy(v)) if vi else None
+            if vi and vres0 is not None:
+                total = len(vres0.init_avail) + sum(len(x) for x in vres0.dev_outputs)
+                lo = len(vres0.init_avail) + sum(len(x) for x in vres0.dev_outputs[:-1])
+                inner = list(range(lo + 1, total))
+                v.pauses = sorted(rng.sample(inner, min(len(inner), rng.randint(1, 4)))) if inner and vi > 1 else None
+            vres = run_real(v)
+            if vres.error or vres.stalled:
+                continue          # a pause that fell outside the timed loop (a transport timeout there is an error by design)
+            req = model_request(v, vres)
+            ck.case(("timed-model", bi, vi, str(outs)), nontrivial=True,
+                    tags=("timed-model", "outs=none" if not outs else ("outs=seen" if seen and seen.lower() in " ".join(outs).lower() else "outs=never"),
+                          "pauses" if v.pauses else "no-pauses"))
+            if req is not None:
+                modelq.append((req, real_reply(vres), v.describe()))
+                n += 1
+    ck.extra["timed_model_cases"] = n
 
 
 def ansi_differential(ck, tier):
